@@ -607,7 +607,7 @@ func init() {
 	defs["StorageDissolvedDecay"] = &modelDef{
 		params: []pgen{
 			decl("DeltaT"),
-			par("doStorageDecay", konst(1)), // 0 dereferences a nil lateralLoads array
+			par("doStorageDecay", func(c Chooser) float64 { return 1 - flag(c) }), // decay disabled is valid since the nil lateral-load series is treated as zero (fix 237b436)
 			par("annualReturnInterval", rng(1, 100)),
 			par("bankFullFlow", rng(0, 500)),
 			par("medianFloodResidenceTime", rng(0, 10)),
